@@ -118,6 +118,17 @@ func (k Keeper) ReturnSlashedTokens(ctx context.Context, amt math.Int, hashId []
 				return errors.New("no validators found in staking module to return tokens to")
 			}
 			val = vals[0]
+		} else if !val.Tokens.IsNil() && !val.DelegatorShares.IsNil() && val.InvalidExRate() {
+			// slashed to zero tokens while shares remain: the staking module refuses delegations to such a validator,
+			// and this runs in the dispute module's begin blocker; the tokens go to a bonded validator instead
+			vals, err := k.GetBondedValidators(ctx, 1)
+			if err != nil {
+				return err
+			}
+			if len(vals) == 0 {
+				return errors.New("no validators found in staking module to return tokens to")
+			}
+			val = vals[0]
 		}
 		delAddr := sdk.AccAddress(source.DelegatorAddress)
 
